@@ -17,9 +17,28 @@ Open Scope Z_scope.
 Theorem C17_ff_sync_latency sh stages init i0 evs : (1 <= stages)%nat ->
   let n := count_oedges evs in
   ff_out (ff_run sh stages init i0 evs) =
-  if (n <? stages)%nat then norm sh init else nth (n - stages) (sampled sh (norm sh i0) evs) 0.
+  if (n <? stages)%nat then norm sh (ff_ctor_init init)
+  else nth (n - stages) (sampled sh (norm sh i0) evs) 0.
 Proof. exact (ff_sync_latency sh stages init i0 evs). Qed.
 Print Assumptions C17_ff_sync_latency.
+
+(* init : option Z is the constructor argument (None = not given -> 0); i0, the input's own initial
+   value, is an independent quantity.  Without init= the output is 0 -- not i0 -- until the stages-th
+   output edge, and only then the input's value (i0 itself if the input was never driven). *)
+Theorem C17_ff_default_init sh stages i0 evs : (1 <= stages)%nat -> wf_shape sh = true ->
+  let n := count_oedges evs in
+  ff_out (ff_run sh stages None i0 evs) =
+  if (n <? stages)%nat then 0 else nth (n - stages) (sampled sh (norm sh i0) evs) 0.
+Proof. exact (ff_default_init sh stages i0 evs). Qed.
+Print Assumptions C17_ff_default_init.
+
+Example C17_ff_default_init_example :
+  let sh := Sh 8 false in
+  wf_shape sh = true /\
+  map (fun k => ff_out (ff_run sh 2 None 165 (repeat Eo k))) [0; 1; 2; 3]%nat = [0; 0; 165; 165] /\
+  map (fun k => ff_out (ff_run sh 2 (Some 0) 255 (repeat Eo k))) [0; 1; 2; 3]%nat = [0; 0; 255; 255] /\
+  map (fun k => ff_out (ff_run sh 3 (Some 90) 165 (repeat Eo k))) [0; 2; 3]%nat = [90; 90; 165].
+Proof. vm_compute. repeat split. Qed.
 
 (* a change of the input (Ein b, then the input is held) is invisible during the next stages - 1 output
    edges -- the output is what it would have been without the change -- and visible from the stages-th on *)
@@ -35,9 +54,9 @@ Example C17_ff_example :
   let sh := Sh 3 false in
   let tail := [Eo; Enop; Eb; Ei; Eo] in
   input_held tail = true /\
-  map (fun k => ff_out (ff_run sh 3 5 0 ([Ein 2; Eo] ++ Ein 7 :: firstn k tail))) [0; 1; 2; 3; 4; 5]%nat
+  map (fun k => ff_out (ff_run sh 3 (Some 5) 0 ([Ein 2; Eo] ++ Ein 7 :: firstn k tail))) [0; 1; 2; 3; 4; 5]%nat
     = [5; 5; 5; 2; 2; 7] /\
-  ff_out (ff_run (Sh 3 true) 2 0 0 [Ein 13; Eo; Eo]) = -3.
+  ff_out (ff_run (Sh 3 true) 2 (Some 0) 0 [Ein 13; Eo; Eo]) = -3.
 Proof. vm_compute. repeat split. Qed.
 
 (* --- AsyncFFSynchronizer / ResetSynchronizer ---
